@@ -5,7 +5,8 @@
  * one case per line:
  *   seq <chunksz> <tmpsz> <ndirs> <wsched> <msched> <files> <op> <op> ...
  *     chunksz  chunkqueue_set_chunk_size() argument (0 = default 8192)
- *     tmpsz    upload temp file size (0 = default 1 MiB)
+ *     tmpsz    upload temp file size (0 = default 1 MiB); "G/A/B": default G, then
+ *              chunkqueue_set_tempdirs(q0, A), chunkqueue_set_tempdirs(q1, B) (0 = default)
  *     ndirs    number of upload dirs (0 = none configured: $TMPDIR is used)
  *     wsched   '-' or comma list consumed by successive pwritev/pwrite calls:
  *              k = ok, s<n> = short write of min(n,requested) bytes,
@@ -441,6 +442,16 @@ int main(void) {
         if (ltv_ntok < 7 || 0 != strcmp(ltv_tok[0], "seq")) { puts("bad-op"); continue; }
         size_t chunksz = (size_t)atol(ltv_tok[1]);
         off_t tmpsz = (off_t)atoll(ltv_tok[2]);
+        off_t qtmpsz[2] = { -1, -1 };
+        {
+            const char *s1 = strchr(ltv_tok[2], '/');
+            if (s1) {
+                const char *s2 = strchr(s1 + 1, '/');
+                if (!s2) { puts("bad-op"); continue; }
+                qtmpsz[0] = (off_t)atoll(s1 + 1);
+                qtmpsz[1] = (off_t)atoll(s2 + 1);
+            }
+        }
         int ndirs = atoi(ltv_tok[3]);
         if (ndirs < 0 || ndirs > 3) { puts("bad-op"); continue; }
         ws_p = ltv_tok[4];
@@ -464,6 +475,8 @@ int main(void) {
         for (int i = 0; i < temp_n; ++i) free(temp_names[i]);
         temp_n = 0;
         chunkqueue *cq[2] = { chunkqueue_init(NULL), chunkqueue_init(NULL) };
+        for (int i = 0; i < 2; ++i)
+            if (qtmpsz[i] >= 0) chunkqueue_set_tempdirs(cq[i], qtmpsz[i]);
         fd_base = count_fds();
 
         for (int i = 7; i < ltv_ntok; ++i) {
